@@ -12,7 +12,7 @@ EXTENDS Common, Json
 
 CONSTANTS MaxMentions,
           ShapeIdx,       \* which of the mention shapes below are generated
-          Wrapper         \* "none": the element is x;  "digit-name": the element is x1 (its name ends in a digit);  "label-inp": the element is the snippet inp inside a label - the definition
+          Wrapper         \* "none": the element is x;  "sibling-class": x follows a sibling that has a class and an attribute of its own (y[].s[t=u]+x, written after an empty set);  "digit-name": the element is x1 (its name ends in a digit);  "label-inp": the element is the snippet inp inside a label - the definition
                           \* input[type=${1:text}] + [name=${1} id=${1}] brings attributes of its own and the label addon (on by
                           \* default) removes the snippet's empty id, never the id the user wrote
 
@@ -48,7 +48,10 @@ Shapes == <<
   [s |-> "[u k=\"2\"]",   nm |-> "u",        val |-> NONE,   vt |-> "raw",  b |-> FALSE, im |-> FALSE],
   [s |-> "[for.]",       nm |-> "for",      val |-> NONE,   vt |-> "raw",  b |-> TRUE,  im |-> FALSE],
   [s |-> ".2x",          nm |-> "class",    val |-> "2x",   vt |-> "raw",  b |-> FALSE, im |-> FALSE],       \* a class name that starts with a digit
-  [s |-> "#3d",          nm |-> "id",       val |-> "3d",   vt |-> "raw",  b |-> FALSE, im |-> FALSE] >>
+  [s |-> "#3d",          nm |-> "id",       val |-> "3d",   vt |-> "raw",  b |-> FALSE, im |-> FALSE],
+  [s |-> "..m1",         nm |-> "class",    val |-> "m1",   vt |-> "raw",  b |-> FALSE, im |-> FALSE, mu |-> TRUE],
+  [s |-> "[]",           nm |-> "",         val |-> NONE,   vt |-> "raw",  b |-> FALSE, im |-> FALSE, empty |-> TRUE] >>   \* 32: an empty attribute set mentions nothing   \* 31: the doubled class shorthand ("multiple"): the attribute
+                                                                                                        \* keeps that mark if it is its first mention; names are then mapped through the "class*" entry
 (* a set may hold a second attribute: index of the shape -> the second attribute of that set *)
 Second(k) == IF k = 26 THEN <<[s |-> "", nm |-> "t", val |-> "z", vt |-> "raw", b |-> FALSE, im |-> FALSE]>>
              ELSE IF k = 27 THEN <<[s |-> "", nm |-> "k", val |-> "2", vt |-> "dq", b |-> FALSE, im |-> FALSE]>>
@@ -63,15 +66,17 @@ PrefixM == IF Wrapper = "label-inp"
            THEN << [s |-> "", nm |-> "type", val |-> "text", vt |-> "raw", b |-> FALSE, im |-> FALSE],
                    [s |-> "", nm |-> "name", val |-> "",     vt |-> "raw", b |-> FALSE, im |-> FALSE] >>      \* id=${1}: removed by the addon
            ELSE <<>>
-Init == /\ abbr = (IF Wrapper = "label-inp" THEN "label>inp" ELSE IF Wrapper = "digit-name" THEN "x1" ELSE "x") /\ mentions = <<>>
-        /\ merged = [i \in 1..Len(PrefixM) |-> [nm |-> PrefixM[i].nm, val |-> PrefixM[i].val, vt |-> PrefixM[i].vt, b |-> FALSE, im |-> FALSE]]
+Init == /\ abbr = (IF Wrapper = "label-inp" THEN "label>inp" ELSE IF Wrapper = "digit-name" THEN "x1" ELSE IF Wrapper = "sibling-class" THEN "y[].s[t=u]+x" ELSE "x") /\ mentions = <<>>
+        /\ merged = [i \in 1..Len(PrefixM) |-> [nm |-> PrefixM[i].nm, val |-> PrefixM[i].val, vt |-> PrefixM[i].vt, b |-> FALSE, im |-> FALSE, mu |-> FALSE]]
         /\ reverse \in (IF Wrapper = "label-inp" THEN {FALSE} ELSE BOOLEAN) /\ rep = 1
 
+IsEmpty(m) == "empty" \in DOMAIN m /\ m.empty
+IsMu(m) == "mu" \in DOMAIN m /\ m.mu
 Find(lst, nm) == IF \E i \in 1..Len(lst) : lst[i].nm = nm THEN CHOOSE i \in 1..Len(lst) : lst[i].nm = nm ELSE 0
 JoinVal(a, b) == IF a = NONE THEN b ELSE IF b = NONE THEN a ELSE IF a = "" THEN b ELSE a \o " " \o b
 MergeStep(lst, m) ==
     LET i == Find(lst, m.nm) IN
-    IF i = 0 THEN Append(lst, [nm |-> m.nm, val |-> m.val, vt |-> m.vt, b |-> m.b, im |-> m.im])
+    IF i = 0 THEN Append(lst, [nm |-> m.nm, val |-> m.val, vt |-> m.vt, b |-> m.b, im |-> m.im, mu |-> IsMu(m)])
     ELSE IF m.nm = "class" THEN [lst EXCEPT ![i].val = JoinVal(@, m.val)]
     ELSE [lst EXCEPT ![i].val = IF reverse THEN @ ELSE m.val,
                      ![i].im = @ \/ m.im, ![i].b = @ \/ m.b,
@@ -81,7 +86,7 @@ Mention == /\ Len(mentions) < MaxMentions /\ rep = 1
            /\ \E k \in ShapeIdx :
                 /\ abbr' = abbr \o Shapes[k].s
                 /\ mentions' = Append(mentions, k)
-                /\ merged' = IF Second(k) = <<>> THEN MergeStep(merged, Shapes[k]) ELSE MergeStep(MergeStep(merged, Shapes[k]), Second(k)[1])
+                /\ merged' = IF IsEmpty(Shapes[k]) THEN merged ELSE IF Second(k) = <<>> THEN MergeStep(merged, Shapes[k]) ELSE MergeStep(MergeStep(merged, Shapes[k]), Second(k)[1])
            /\ UNCHANGED <<reverse, rep>>
 Repeat2 == /\ Wrapper # "label-inp" /\ rep = 1 /\ Len(mentions) >= 1 /\ rep' = 2 /\ abbr' = abbr \o "*2" /\ UNCHANGED <<mentions, merged, reverse>>
 Next == Mention \/ Repeat2
@@ -89,7 +94,7 @@ Spec == Init /\ [][Next]_vars
 
 (* --------------------------------------------------------------- contract *)
 RECURSIVE AllMentions(_)
-AllMentions(ms) == IF ms = <<>> THEN <<>> ELSE <<Shapes[Head(ms)]>> \o Second(Head(ms)) \o AllMentions(Tail(ms))
+AllMentions(ms) == IF ms = <<>> THEN <<>> ELSE (IF IsEmpty(Shapes[Head(ms)]) THEN <<>> ELSE <<Shapes[Head(ms)]>>) \o Second(Head(ms)) \o AllMentions(Tail(ms))
 Ms == PrefixM \o AllMentions(mentions)
 NamesInOrder ==           \* names by first mention
     LET RECURSIVE F(_, _)
@@ -121,13 +126,14 @@ Silent == \/ \E i, j \in 1..Len(Ms) : /\ i # j /\ Ms[i].nm = Ms[j].nm /\ Ms[i].n
 Booleans == {"contenteditable", "seamless", "async", "autofocus", "autoplay", "checked", "controls", "defer", "disabled",
              "formnovalidate", "hidden", "ismap", "loop", "multiple", "muted", "novalidate", "readonly", "required", "reversed",
              "selected", "typemustmatch"}
-MapName(syntax, nm) == IF syntax = "jsx" THEN (IF nm = "class" THEN "className" ELSE IF nm = "for" THEN "htmlFor" ELSE nm) ELSE nm
+MapName(syntax, nm, mu) == IF syntax = "jsx" THEN (IF nm = "class" THEN "className" ELSE IF nm = "for" THEN "htmlFor" ELSE nm)
+                           ELSE IF syntax = "vue" /\ nm = "class" /\ mu THEN ":class" ELSE nm          \* jsx rows are not judged for the doubled shorthand (value prefix)
 UpperOf(s) == CASE s = "id" -> "ID" [] s = "class" -> "CLASS" [] s = "className" -> "CLASSNAME" [] s = "t" -> "T" [] s = "d" -> "D"
                 [] s = "m" -> "M" [] s = "disabled" -> "DISABLED" [] s = "u" -> "U" [] s = "e" -> "E" [] s = "for" -> "FOR"
-                [] s = "htmlFor" -> "HTMLFOR" [] s = "g" -> "G" [] s = "h" -> "H" [] s = "k" -> "K" [] s = "type" -> "TYPE" [] s = "name" -> "NAME"
+                [] s = ":class" -> ":CLASS" [] s = "htmlFor" -> "HTMLFOR" [] s = "g" -> "G" [] s = "h" -> "H" [] s = "k" -> "K" [] s = "type" -> "TYPE" [] s = "name" -> "NAME"
 EmitOne(a, row) ==       \* <<>> when the attribute is dropped, else << [n, q, v] >>; q = NONE: printed without "=" part
     LET hasVal == a.val # NONE /\ a.val # ""
-        nm0 == MapName(row.syntax, a.nm)
+        nm0 == MapName(row.syntax, a.nm, a.mu)
         nm == IF row.upper THEN UpperOf(nm0) ELSE nm0
         q == IF a.vt = "expr" THEN "{" ELSE IF row.quotes = "single" THEN "'" ELSE "\""
     IN IF a.im /\ a.vt = "raw" /\ ~hasVal THEN <<>>
